@@ -140,6 +140,8 @@ SEEDS = {
     "C09g-variance-about-position-mean": ("C09", "a bunch whose mean position differs from its mean energy (displaced on one axis only): variance() takes the second moment of either axis about the POSITION mean (hoisted out of the loop from the wrong array)", ["C10", "C04"]),
     "C11g-loaded-grid-energy-scale-relative": ("C11", "a start from a results file together with --alpha1/--alpha2 or --LinearRF false: the loaded grid's energy axis carries the relative spread as its ElectronVolt scale (factor E0 off), the higher-order drift and the sinusoidal kick of the continued leg are wrong", []),
     "C13g-alpha0-commented-when-fs-given": ("C13", "a non-default alpha0 together with a SynchrotronFrequency that was given anywhere, in particular the explicit 0 every saved .cfg contains (second generation): alpha0 is written as a comment", []),
+    "C08g-swapoffset-lastbunch-shrinks-for-good": ("C08", "more than one bunch, a per-bunch y kick through swapOffset, and the call order full field / field with fewer blocks than bunches / full field: the last bunch owning a table is clamped with min() and never grows back (library-level programs only)", ["C02"]),
+    "C14g-final-renormalisation-by-planned-step": ("C14", "--RenormalizeCharge n > 0 and an interrupt that stops the loop at a step k with (k%n==0) != (laststep%n==0): the final block decides about renormalising from the planned end step, the last record is off by the accumulated charge drift", []),
     "C10-": ("C10", "", []),
     "C17-": ("C17", "", []),
 }
